@@ -699,6 +699,9 @@ class Eval:
         'core::ptr::const_ptr::add': lambda p, k: p + k, 'core::ptr::mut_ptr::add': lambda p, k: p + k,
         'core::ptr::const_ptr::sub': lambda p, k: p - k, 'core::ptr::mut_ptr::sub': lambda p, k: p - k,
         'core::ptr::const_ptr::cast': lambda p: p, 'core::ptr::mut_ptr::cast': lambda p: p,
+        'packed::ext::Pointer::distance': lambda a, b: a - b, 'packed::ext::Pointer::as_usize': lambda a: a,
+        'core::num::trailing_zeros': lambda x: (x & -x).bit_length() - 1 if x else 64,
+        'core::num::count_ones': lambda x: bin(x).count('1'),
     }
     # the crate's integer newtypes are transparent
     for _ty in ('StateID', 'PatternID', 'SmallIndex'):
@@ -740,6 +743,10 @@ class Eval:
             raise Unsupported('temporary _%d' % t[1])
         if k == 'un' and t[1] == 'Not':
             return int(not self.val(t[2]))
+        if k == 'un' and t[1] == 'BitNot':
+            return ~self.val(t[2]) & 0xFFFFFFFFFFFFFFFF
+        if k == 'un' and t[1] == 'Neg':
+            return -self.val(t[2])
         if k == 'op':
             x, y = self.val(t[2]), self.val(t[3])
             o = t[1].replace('WithOverflow', '').replace('Unchecked', '')
@@ -767,6 +774,16 @@ class Eval:
             nm = short(t[1])
             if nm in self.PURE:
                 return self.PURE[nm](*[self.val(x) for x in t[2]])
+            m = re.match(r'^util::int::(\w+)::(\w+)$', nm)
+            if m and len(t[2]) == 1:
+                x = self.val(t[2][0])
+                meth = m.group(2)
+                if meth.startswith('as_') or meth in ('to_bits', 'from_bits'):
+                    return x
+                mm = re.match(r'^(low|high)_u(\d+)$', meth)
+                if mm and isinstance(x, int):
+                    w = int(mm.group(2))
+                    return (x & ((1 << w) - 1)) if mm.group(1) == 'low' else ((x >> w) & ((1 << w) - 1))
             if re.search(r'core::option::Option::(unwrap|expect)$', nm):
                 v = self.val(t[2][0])
                 if isinstance(v, tuple) and v[0] == 'None':
